@@ -224,7 +224,25 @@ pub fn scenarios(tier: &str) -> Vec<Scenario> {
     ];
     let mut base = start_with_s();
     base.extend(block(vec![TxSpec::Deploy { pk: 1, code: crate::asm::s_initcode(), len: DEFAULT_LEN }]));
+    // data shapes a short alphabet does not reach: a block with 12 logging transactions (two-digit indexes),
+    // a log emitted by another contract than the transaction's target (proxy P forwards to S), a
+    // transaction that emits a log and then reverts (R) between two logging ones
+    let s_addr = hex::decode(Tgt::s().resolve().unwrap().trim_start_matches("0x")).unwrap();
+    let mut p_rt: Vec<u8> = vec![0x36, 0x5f, 0x5f, 0x37, 0x5f, 0x5f, 0x36, 0x5f, 0x5f, 0x73];
+    p_rt.extend_from_slice(&s_addr);
+    p_rt.extend_from_slice(&[0x5a, 0xf1, 0x50, 0x00]);
+    let r_rt: Vec<u8> = vec![0x60, 0x01, 0x5f, 0x5f, 0xa1, 0x5f, 0x5f, 0xfd];
+    let p_tgt = Tgt::Created { pk: 3, nonce: 0 };
+    let r_tgt = Tgt::Created { pk: 4, nonce: 0 };
     let mut long = base.clone();
+    long.extend(block(vec![TxSpec::Deploy { pk: 3, code: crate::asm::initcode(&p_rt), len: DEFAULT_LEN }, TxSpec::Deploy { pk: 4, code: crate::asm::initcode(&r_rt), len: DEFAULT_LEN }]));
+    long.extend(block((0..12u8).map(|i| lg(Tgt::s(), 0, i % 4, 1 + (i % 3), [1 + (i % 2), 2, 1, 0])).collect()));
+    long.extend(block(vec![
+        lg(Tgt::s(), 0, 0, 1, [1, 0, 0, 0]),
+        TxSpec::Call { pk: 2, tgt: p_tgt, data: crate::asm::s_set(1, 1, 2, [2, 1, 0, 0]), len: DEFAULT_LEN },
+        TxSpec::Call { pk: 2, tgt: r_tgt, data: vec![], len: DEFAULT_LEN },
+        lg(s2.clone(), 2, 1, 1, [2, 0, 0, 0]),
+    ]));
     long.extend(alpha[1].steps.clone());
     long.push(Step::Mine(3));
     long.extend(alpha[2].steps.clone());
@@ -247,7 +265,7 @@ pub fn scenarios(tier: &str) -> Vec<Scenario> {
         Scenario {
             name: "logs-grid-full-topics".into(),
             opts,
-            starts: vec![("seven blocks, logs in three of them, partly committed".into(), long)],
+            starts: vec![("ten blocks: 12 logging transactions in one, a proxied log and a reverted log in another, logs in three more, partly committed".into(), long)],
             alphabet: alpha,
             bounds: Bounds { depth: if thorough { 2 } else { 1 }, dev: vec![1, 1], dev_total: 2 },
             weight: 1.0,
